@@ -16,9 +16,18 @@ META = dict(
     evaluations_counter="cases",
     min={"tensors_checked": 5000, "c06_checked_at_dispatch": 1000, "c06_checked_at_function": 1000,
          "c06_move_checks": 300, "roundtrip_checks": 40, "freeze_checks": 50, "deepcopy_checks": 50},
-    anchors=["tensor/qtensor.py:QTensor.__torch_function__", "tensor/qbytes.py:QBytesTensor.__torch_dispatch__",
-             "tensor/qbits/qbits.py:QBitsTensor.__torch_dispatch__", "tensor/qbytes.py:QBytesTensor.__tensor_flatten__",
-             "tensor/qbits/qbits.py:QBitsTensor.__tensor_flatten__"],
+    anchors=["tensor/qtensor.py:QTensor.__torch_function__",
+             "tensor/qbytes.py:QBytesTensor.__torch_dispatch__",
+             "tensor/qbits/qbits.py:QBitsTensor.__torch_dispatch__",
+             "tensor/qbytes.py:QBytesTensor.__tensor_flatten__",
+             "tensor/qbits/qbits.py:QBitsTensor.__tensor_flatten__",
+             "tensor/qbits/qbits_ops.py:_to_copy",
+             "tensor/qbytes_ops.py:_to_copy",
+             "tensor/qbits/qbits_ops.py:clone",
+             "tensor/qbytes_ops.py:clone",
+             "tensor/qbits/qbits.py:QBitsTensor.load_from_state_dict",
+             "tensor/qbytes.py:QBytesTensor.load_from_state_dict",
+             "nn/qmodule.py:QModuleMixin.freeze"],
     rule="case = one history: an initial quantized tensor (qtype x axis x group x shape x dtype x layout) followed by a "
          "random sequence (length 1..10) of intercepted shape ops, moves/copies (to, clone, detach, contiguous, copy_, "
          "deepcopy), rescalings, state_dict round trips through a one-layer module, and freeze; the invariant is "
